@@ -555,3 +555,43 @@ pub fn auto_replay(path: &str) -> Value {
     let _ = std::fs::remove_file(&tmp);
     json!({"summary":{"cases":cases,"runs":runs,"mismatches":bad}})
 }
+
+/// C08 (macros): anstream::panic! payload and anstream::print!/eprint! output for TLC-generated texts.
+/// Prints one JSON line per case for panic payloads; the printed texts go to the real stdout/stderr, separated by a
+/// marker written through std directly, and are compared by the driver.
+pub fn macro_replay(path: &str, what: &str) -> Value {
+    let mut cases = 0u64;
+    let mut results = Vec::new();
+    for c in crate::read_lines(path) {
+        let ops: Vec<Vec<u8>> = c["ops"].as_array().unwrap().iter().map(|o| crate::bytes_of(&o[1])).collect();
+        let all: Vec<u8> = ops.concat();
+        let text = match String::from_utf8(all) {
+            Ok(t) => t,
+            Err(_) => continue,
+        };
+        cases += 1;
+        match what {
+            "panic" => {
+                let r = catch_unwind(AssertUnwindSafe(|| {
+                    anstream::panic!("{}", text);
+                }));
+                let payload = match r {
+                    Err(p) => p.downcast_ref::<String>().cloned().unwrap_or_default(),
+                    Ok(()) => "<no panic>".to_string(),
+                };
+                results.push(json!({"strip":c["strip"],"pass":c["pass"],"payload":payload.as_bytes()}));
+            }
+            "print" => {
+                anstream::print!("{}", text);
+                print!("\n@@SEP@@\n");
+            }
+            "eprint" => {
+                anstream::eprint!("{}", text);
+                eprint!("\n@@SEP@@\n");
+            }
+            _ => panic!("what"),
+        }
+    }
+    let _ = std::io::stdout().flush();
+    json!({"summary":{"cases":cases},"results":results})
+}
